@@ -175,7 +175,7 @@ def run(ck):
         ck.ob("R3", nm, ok, m.where(fn), "%s must select nodes without %s" % (nm, acc))
 
     # ---------------------------------------------------------------- R4 algorithm skeletons
-    from sa.cfg import CFG, node_calls
+    from sa.cfg import CFG, node_calls, node_calls
     fn = meths["has_loop"]
     cfg = CFG(fn)
     # the on-path set: the one tested in `succ in <set>` under a loop over the successors of the current node, returning True
@@ -230,8 +230,38 @@ def run(ck):
     ok = any(isinstance(c, ast.Call) and isinstance(c.func, ast.Attribute) and c.func.attr in ("update", "add") and dotted(c.func.value) == "new_dom" and "node" in norm(c)
              for c in walk_local(wl))
     ck.ob("R4", "dominators:reflexive", ok, m.where(wl), "a node must dominate itself")
-    req = [n for n in wl.body if isinstance(n, ast.For) and norm(n.iter) == "%s(node)" % np_]
-    ok = bool(req) and any(isinstance(c, ast.Call) and dotted(c.func) == "todo.add" for c in walk_local(req[0])) and \
-        any(isinstance(n, ast.Assign) and norm(n.targets[0]) == "dominators[node]" and norm(n.value) == "new_dom" for n in wl.body)
+    # a changed set is stored and, on every path from the store back to the loop head, every successor is re-queued
+    # (a loop adding each one, or todo.update / |= with the successor sequence, possibly through a temporary or list()/set())
+    from sa.astutil import Resolver as _Res
+    from sa.pathob import undischarged as _und
+    _res = _Res(fn)
+    dcfg = CFG(fn)
+    succ_call = "%s(node)" % np_
+
+    def _is_succs(x):
+        x = _res.expand_node(x)
+        while isinstance(x, ast.Call) and dotted(x.func) in ("set", "list", "tuple", "iter", "sorted") and len(x.args) == 1:
+            x = x.args[0]
+        return norm(x) == succ_call
+
+    def _requeues(nd):
+        a = nd.ast
+        if nd.kind == "for" and _is_succs(a.iter):
+            tgt = norm(a.target)
+            return any(isinstance(c, ast.Call) and dotted(c.func) in ("todo.add", "todo.append") and c.args and norm(c.args[0]) == tgt for st_ in a.body for c in walk_local(st_))
+        if nd.kind == "stmt":
+            for c in node_calls(nd):
+                if dotted(c.func) in ("todo.update", "todo.extend") and c.args and _is_succs(c.args[0]):
+                    return True
+            if isinstance(a, ast.AugAssign) and norm(a.target) == "todo" and isinstance(a.op, ast.BitOr) and _is_succs(a.value):
+                return True
+        return False
+    stores = [nd for nd in dcfg.nodes if nd.kind == "stmt" and isinstance(nd.ast, ast.Assign) and norm(nd.ast.targets[0]) == "dominators[node]"
+              and isinstance(nd.ast.value, ast.Name)]
+    heads = [nd for nd in dcfg.nodes if nd.kind == "loop" and nd.ast is wl]
+    ok = bool(stores) and bool(heads)
+    for st_ in stores:
+        if _und(dcfg, _requeues, start=st_.id, targets=[h.id for h in heads] + [dcfg.exit.id]) is not None:
+            ok = False
     ck.ob("R4", "dominators:requeue-on-change", ok, m.where(wl), "a changed set must be stored and the node's successors re-queued")
 
